@@ -82,8 +82,8 @@ func (h *Handler6) spoofLoop(dstAddr packet.Addr) {
 				list = append(list, router.Addr)
 			}
 
-			h.Unlock()
-
+			// keep the handler locked while this batch is written: StopHunt and Close take the same
+			// lock, so once they have returned no advertisement of this iteration is still to come
 			for _, routerAddr := range list {
 				hostAddr := packet.Addr{MAC: h.session.NICInfo.HostAddr4.MAC, IP: h.session.NICInfo.HostLLA.Addr()}
 				targetAddr := packet.Addr{MAC: h.session.NICInfo.HostAddr4.MAC, IP: routerAddr.IP}
@@ -117,6 +117,7 @@ func (h *Handler6) spoofLoop(dstAddr packet.Addr) {
 				}
 				*/
 			}
+			h.Unlock()
 		} else {
 			h.Unlock()
 			if nTimes%64 == 0 {
